@@ -23,6 +23,7 @@ type TableVal struct {
 	MapKeys []constant.Value
 	MapVals []constant.Value // nil entries for non-constant values
 	MapValExprs []ast.Expr
+	derived bool // value produced by recognised init() loops, not by a literal
 	Spec    *ast.ValueSpec
 	Pkg     *packages.Package
 	Expr    ast.Expr
@@ -67,8 +68,131 @@ func (p *Prog) Tables() *Tables {
 			}
 		}
 	}
+	t.deriveInitMaps()
 	p.tables = t
 	return t
+}
+
+// deriveInitMaps: a package-level map created with make(...) and filled in init() only by loops of the shapes
+//     for k, v := range SRC { DST[v] = k }   (inversion)      for k, v := range SRC { DST[k] = v }   (copy)
+// over literal map tables SRC gets the value those loops produce (in source order). Any other statement that
+// mentions DST inside an init function leaves it without a value.
+func (t *Tables) deriveInitMaps() {
+	for _, pk := range t.p.Lib {
+		type step struct {
+			dst, src *types.Var
+			invert   bool
+		}
+		var steps []step
+		spoiled := map[*types.Var]bool{}
+		for _, f := range pk.Syntax {
+			for _, d := range f.Decls {
+				fd, ok := d.(*ast.FuncDecl)
+				if !ok || fd.Name.Name != "init" || fd.Recv != nil || fd.Body == nil {
+					continue
+				}
+				for _, stmt := range fd.Body.List {
+					rs, ok := stmt.(*ast.RangeStmt)
+					matched := false
+					if ok && rs.Body != nil && len(rs.Body.List) == 1 {
+						as, ok := rs.Body.List[0].(*ast.AssignStmt)
+						srcID, ok2 := rs.X.(*ast.Ident)
+						kID, ok3 := rs.Key.(*ast.Ident)
+						vID, ok4 := rs.Value.(*ast.Ident)
+						if ok && ok2 && ok3 && ok4 && len(as.Lhs) == 1 && len(as.Rhs) == 1 && as.Tok == token.ASSIGN {
+							ix, ok5 := as.Lhs[0].(*ast.IndexExpr)
+							rhs, ok6 := as.Rhs[0].(*ast.Ident)
+							if ok5 && ok6 {
+								dstID, ok7 := ix.X.(*ast.Ident)
+								idxID, ok8 := ix.Index.(*ast.Ident)
+								if ok7 && ok8 {
+									dst, _ := pk.TypesInfo.Uses[dstID].(*types.Var)
+									src, _ := pk.TypesInfo.Uses[srcID].(*types.Var)
+									if dst != nil && src != nil {
+										if idxID.Name == vID.Name && rhs.Name == kID.Name {
+											steps = append(steps, step{dst, src, true})
+											matched = true
+										} else if idxID.Name == kID.Name && rhs.Name == vID.Name {
+											steps = append(steps, step{dst, src, false})
+											matched = true
+										}
+									}
+								}
+							}
+						}
+					}
+					if !matched {
+						// any other statement mentioning a package-level map spoils it
+						ast.Inspect(stmt, func(n ast.Node) bool {
+							if id, ok := n.(*ast.Ident); ok {
+								if v, ok := pk.TypesInfo.Uses[id].(*types.Var); ok && v.Parent() == pk.Types.Scope() {
+									if _, isMap := v.Type().Underlying().(*types.Map); isMap {
+										spoiled[v] = true
+									}
+								}
+							}
+							return true
+						})
+					}
+				}
+			}
+		}
+		for _, st := range steps {
+			if spoiled[st.dst] {
+				continue
+			}
+			src := t.vals[st.src]
+			dst := t.vals[st.dst]
+			if src == nil || src.Kind != "map" || dst == nil {
+				spoiled[st.dst] = true
+				continue
+			}
+			if dst.Kind != "map" {
+				// must have been created empty: make(map[..]..., n)
+				ce, ok := dst.Expr.(*ast.CallExpr)
+				if id, isID := func() (*ast.Ident, bool) {
+					if !ok {
+						return nil, false
+					}
+					i, k := ce.Fun.(*ast.Ident)
+					return i, k
+				}(); !isID || id.Name != "make" {
+					spoiled[st.dst] = true
+					continue
+				}
+				dst.Kind = "map"
+				dst.MapKeys, dst.MapVals, dst.MapValExprs = nil, nil, nil
+			}
+			for i, k := range src.MapKeys {
+				v := src.MapVals[i]
+				nk, nv := k, v
+				if st.invert {
+					nk, nv = v, k
+				}
+				if nk == nil {
+					continue
+				}
+				replaced := false
+				for j, ek := range dst.MapKeys {
+					if ek != nil && ek.Kind() == nk.Kind() && ek.ExactString() == nk.ExactString() {
+						dst.MapVals[j] = nv
+						replaced = true
+					}
+				}
+				if !replaced {
+					dst.MapKeys = append(dst.MapKeys, nk)
+					dst.MapVals = append(dst.MapVals, nv)
+					dst.MapValExprs = append(dst.MapValExprs, nil)
+				}
+			}
+			dst.derived = true
+		}
+		for v := range spoiled {
+			if tv := t.vals[v]; tv != nil && tv.derived {
+				tv.Kind = "other"
+			}
+		}
+	}
 }
 
 func (t *Tables) eval(pk *packages.Package, e ast.Expr) *TableVal {
